@@ -111,11 +111,7 @@ Proof.
       - intros e c He Hc E. unfold store in Hc. rewrite Kc in Hc. destruct Hc as [<-|Hc].
         + assert (eOrd e <= last p) by (apply L; unfold regList; rewrite Hr; rewrite !in_app_iff; tauto). lia.
         + eapply FR; eauto. }
-    destruct (lookup k r) as [c|] eqn:Lk; destruct (fl =? 0) eqn:Z; cbn [fst] in *.
-    + constructor; unfold regList; cbn [reg last pendF pendR]; auto.
-      * apply nodup_keys_filter. exact K.
-      * apply (nodup_ords_app_filter _ (pendR p) r). exact R.
-      * intros e c0 He Hc. apply FR; auto.
+    destruct (lookup k r) as [c|] eqn:Lk; [|destruct (fl =? 0) eqn:Z]; cbn [fst] in *.
     + destruct (STO (mkEntry k (last p + 1) (negb (N.testbit fl 0)) (negb (N.testbit fl 1))) eq_refl eq_refl) as (A & B & C).
       constructor; unfold regList; cbn [reg last pendF pendR]; auto.
     + constructor; unfold regList; rewrite ?Hr; auto.
